@@ -54,35 +54,102 @@ def _self_attr(node, base='self'):
     return None
 
 
+def _eq_call(c):
+    """(attr, kind) of a call _eq_K(self.a, other.a) (either order), or
+    (None, problem text), or None if c is not an _eq_ call"""
+    if not (isinstance(c, ast.Call) and isinstance(c.func, ast.Name) and
+            c.func.id.startswith('_eq_') and len(c.args) == 2):
+        return None
+    a = _self_attr(c.args[0], 'self')
+    b = _self_attr(c.args[1], 'other')
+    if a is None or b is None:
+        a2 = _self_attr(c.args[0], 'other')
+        b2 = _self_attr(c.args[1], 'self')
+        if a2 is not None and b2 is not None:
+            a, b = b2, a2
+    if a is None or b is None or a != b:
+        return (None, 'operands are not the same attribute of self and '
+                      'other')
+    return (a, c.func.id[4:])
+
+
+def _conjuncts(e, pol=True):
+    """[(expr, polarity)] that all hold when e evaluates to `pol`"""
+    if isinstance(e, ast.UnaryOp) and isinstance(e.op, ast.Not):
+        return _conjuncts(e.operand, not pol)
+    if isinstance(e, ast.BoolOp):
+        if (isinstance(e.op, ast.And) and pol) or \
+                (isinstance(e.op, ast.Or) and not pol):
+            out = []
+            for v in e.values:
+                out += _conjuncts(v, pol)
+            return out
+        return []          # a disjunction pins nothing down
+    return [(e, pol)]
+
+
+def eq_paths(func):
+    """[(facts, return value node)] for every path of a loop-free __eq__;
+    facts = [(expr, polarity)] known on the path"""
+    out = []
+
+    def walk(stmts, facts):
+        for i, st in enumerate(stmts):
+            if isinstance(st, ast.Return):
+                out.append((facts, st.value))
+                return False
+            if isinstance(st, ast.Raise):
+                return False
+            if isinstance(st, ast.If):
+                rest = stmts[i + 1:]
+                t = walk(st.body + rest, facts + _conjuncts(st.test, True))
+                f = walk(st.orelse + rest,
+                         facts + _conjuncts(st.test, False))
+                return t or f
+        out.append((facts, None))
+        return True
+    walk(func.body, [])
+    return out
+
+
 def eq_table(func):
-    """{attr: kind} from _eq_K(self.a, other.a) calls in the return
-    expression of __eq__; returns (table, problems)."""
-    table, problems = {}, []
-    rets = [n for n in walk_no_nested(func.node)
-            if isinstance(n, ast.Return) and n.value is not None]
-    for r in rets:
-        for c in ast.walk(r.value):
-            if isinstance(c, ast.Call) and isinstance(c.func, ast.Name) and \
-                    c.func.id.startswith('_eq_') and len(c.args) == 2:
-                a = _self_attr(c.args[0], 'self')
-                b = _self_attr(c.args[1], 'other')
-                if a is None or b is None:
-                    a2 = _self_attr(c.args[0], 'other')
-                    b2 = _self_attr(c.args[1], 'self')
-                    if a2 is not None and b2 is not None:
-                        a, b = b2, a2
-                if a is None or b is None or a != b:
-                    problems.append((c, 'operands are not the same attribute '
-                                     'of self and other'))
-                    continue
-                table[a] = c.func.id[4:]
-    # the conjuncts must be and-ed: the return value is a BoolOp(And) or a
-    # single call
-    for r in rets:
-        v = r.value
-        if isinstance(v, ast.BoolOp) and not isinstance(v.op, ast.And):
-            problems.append((v, 'attribute comparisons are not and-ed'))
-    return table, problems
+    """{attr: kind} of the attributes that every non-identity path returning
+    a possibly-true value compares with _eq_K(self.a, other.a): as a
+    conjunct of the returned expression or as a guard whose failure returns
+    False.  Returns (table, problems)."""
+    problems = []
+    per_path = []
+    for facts, val in eq_paths(func):
+        if val is None:
+            continue
+        if isinstance(val, ast.Constant) and val.value is False:
+            continue
+        if any((pol and norm(e) in ('self is other', 'other is self')) or
+               ((not pol) and norm(e) in ('self is not other',
+                                          'other is not self'))
+               for e, pol in facts):
+            continue          # identity short-cut
+        req = [e for e, pol in facts if pol]
+        if isinstance(val, ast.BoolOp) and not isinstance(val.op, ast.And):
+            problems.append((val, 'attribute comparisons are not and-ed'))
+        if not (isinstance(val, ast.Constant) and val.value is True):
+            req += [e for e, pol in _conjuncts(val, True) if pol]
+        tab = {}
+        for e in req:
+            r = _eq_call(e)
+            if r is None:
+                continue
+            if r[0] is None:
+                problems.append((e, r[1]))
+                continue
+            tab[r[0]] = r[1]
+        per_path.append(tab)
+    if not per_path:
+        return {}, problems
+    common = set(per_path[0])
+    for t in per_path[1:]:
+        common &= set(t)
+    return {a: per_path[0][a] for a in common}, problems
 
 
 def hash_table(func):
